@@ -203,6 +203,14 @@ class _Canon(ast.NodeTransformer):
                 return ast.copy_location(ast.Compare(left=node.args[0], ops=[self._CMP_FUNCS[f.attr]()], comparators=[node.args[1]]), node)
         if isinstance(f, ast.Name) and f.id == "bool" and len(node.args) == 1 and not node.keywords and isinstance(node.args[0], ast.Compare):
             return node.args[0]
+        # np.take(a, idx, axis=0) is a[idx]; np.take(a, idx, axis=1) is a[:, idx] (arrays)
+        if isinstance(f, ast.Attribute) and isinstance(f.value, ast.Name) and f.value.id in ("np", "numpy") and f.attr == "take" and len(node.args) in (2, 3) \
+                and not any(isinstance(a, ast.Starred) for a in node.args) and all(k.arg == "axis" for k in node.keywords):
+            ax = node.args[2] if len(node.args) == 3 else (node.keywords[0].value if node.keywords else None)
+            if isinstance(ax, ast.Constant) and ax.value == 0:
+                return ast.copy_location(ast.Subscript(value=node.args[0], slice=node.args[1], ctx=ast.Load()), node)
+            if isinstance(ax, ast.Constant) and ax.value == 1:
+                return ast.copy_location(ast.Subscript(value=node.args[0], slice=ast.Tuple(elts=[ast.Slice(), node.args[1]], ctx=ast.Load()), ctx=ast.Load()), node)
         return node
 
     def visit_If(self, node: ast.If):  # noqa: N802
